@@ -177,6 +177,25 @@ type Built struct {
 	Header []Made
 	Cells  [][]Made
 	spec   *TableSpec
+	shared map[string]*Made
+}
+
+// makeItem makes the item for one cell.  Items marked as sharing their object get the one object, set to this
+// item's fields just before the cell is made (rec := &T{}; for ... { rec.x = ...; t.AddRowItems(i, rec) }).
+func (b *Built) makeItem(s *ItemSpec) Made {
+	if s.Share == "" || s.K != "typed" || !s.Ptr || s.F == nil {
+		return s.Make()
+	}
+	if b.shared == nil {
+		b.shared = map[string]*Made{}
+	}
+	if m, ok := b.shared[s.Share]; ok && m.Mutate != nil {
+		m.Mutate(*s.F)
+		return Made{Item: m.Item, Mutate: m.Mutate, spec: s}
+	}
+	m := s.Make()
+	b.shared[s.Share] = &m
+	return m
 }
 
 // Build replays the spec's construction history on t (which must be empty)
@@ -322,7 +341,7 @@ func (s *TableSpec) BuildStagedN(t tabular.Table, ats []int, mid func()) *Built 
 		items := make([]interface{}, len(s.Header))
 		b.Header = make([]Made, len(s.Header))
 		for i := range s.Header {
-			b.Header[i] = s.Header[i].Make()
+			b.Header[i] = b.makeItem(&s.Header[i])
 			items[i] = b.Header[i].Item
 		}
 		t.AddHeaders(items...)
@@ -342,7 +361,7 @@ func (s *TableSpec) BuildStagedN(t tabular.Table, ats []int, mid func()) *Built 
 		made := make([]Made, len(rs.Items))
 		items := make([]interface{}, len(rs.Items))
 		for j := range rs.Items {
-			made[j] = rs.Items[j].Make()
+			made[j] = b.makeItem(&rs.Items[j])
 			items[j] = made[j].Item
 		}
 		b.Cells[i] = made
@@ -691,14 +710,15 @@ func (r *R) echo(s *TableSpec) {
 	type slot struct {
 		it  *ItemSpec
 		col int
+		row int
 	}
 	var slots []slot
 	for j := range s.Header {
-		slots = append(slots, slot{&s.Header[j], j})
+		slots = append(slots, slot{&s.Header[j], j, -1})
 	}
 	for i := range s.Rows {
 		for j := range s.Rows[i].Items {
-			slots = append(slots, slot{&s.Rows[i].Items[j], j})
+			slots = append(slots, slot{&s.Rows[i].Items[j], j, i})
 		}
 	}
 	if len(slots) < 2 {
@@ -723,6 +743,33 @@ func (r *R) echo(s *TableSpec) {
 			f := *a.it.F
 			f.S, f.G, f.E = long, long, long
 			a.it.F = &f
+		}
+	}
+	if r.Chance(1, 3) {
+		// ONE object in several cells of different rows, each cell made when the object read something else
+		if a.it.K == "str" {
+			t := string(a.it.Str)
+			*a.it = TypedItem("PS_0", Fields{S: t, G: "<wrong G>", E: "<wrong E>"}, true)
+		}
+		if a.it.K == "typed" && a.it.Ptr && a.it.Pre == nil && a.it.F != nil {
+			key := fmt.Sprintf("object %d", r.Intn(1000))
+			n := 0
+			usedRows := map[int]bool{a.row: true} // one cell per row: the items of a row are all made before its cells are
+			for _, sl := range slots {
+				if usedRows[sl.row] || sl.it.Share != "" || !r.Chance(1, 2) {
+					continue
+				}
+				usedRows[sl.row] = true
+				f := *a.it.F
+				txt := sl.it.Text()
+				f.S, f.G, f.E = txt, txt, txt
+				*sl.it = ItemSpec{K: "typed", Code: a.it.Code, F: &f, Ptr: true, Share: key}
+				n++
+			}
+			if n > 0 {
+				a.it.Share = key
+			}
+			return
 		}
 	}
 	for n := r.Range(1, 4); n > 0; n-- {
